@@ -85,6 +85,9 @@ def parseDecl (ps : Array ParInfo) (j : Json) : Except String Decl := do
       let es ← (← getArr j "elems").toList.mapM (parseE ps)
       return .arrE (es.map fun e => [e])
   | "dm" => return .dm (← parseRat (← getObj j "v"))
+  | "dmat" => do
+    let rows ← (← getArr j "rows").toList.mapM fun r => do (← r.getArr?).toList.mapM parseRat
+    return .dmat rows
   | "notlit" => do
     -- `not <literal>` is `ca.if_else(literal, 0, 1, True)`: the walk delivers a 1×1 DM, the same kind
     -- (`Walk.dm`) as a product of two numerals
